@@ -89,8 +89,7 @@ def make_cdef(rnd, tag):
         text += dcl + sep
     if decls and rnd.random() < 0.7:
         text += '\n'
-    r = rnd.random()
-    if r < 0.03:
+    if rnd.random() < 0.03:                       # invalid cdef: the reference raises too
         text += rnd.choice(['int (;', 'int é(void);', 'struct {', 'foo_t bar(void);'])
     return text
 
@@ -108,7 +107,7 @@ def make_prelude(rnd, tag):
         ]))
     eol = rnd.choice(['\n'] * 6 + ['\r\n', '\r\n', '\r', 'mixed'])
     text = ''
-    for i, ln in enumerate('\n'.join(lines).split('\n') if lines else []):
+    for ln in ('\n'.join(lines).split('\n') if lines else []):
         text += ln + (rnd.choice(['\n', '\r\n', '\r']) if eol == 'mixed' else eol)
     if text and rnd.random() < 0.25:
         text = text.rstrip('\r\n')
